@@ -992,586 +992,603 @@ def run(repo, chk):
     chk.fn(rd, wr)
 
     # ---------------------------------------------------------------- R-C12-1 section pairing
-    inp_methods = set(repo.methods(repo.cls(IO, "InpFile")))
+    with chk.part("R-C12-1 section pairing"):
+        inp_methods = set(repo.methods(repo.cls(IO, "InpFile")))
 
-    def sections_called(fn, prefix):
-        """sections whose _read_X / _write_X method fn calls: directly, or through a table of names (`getattr(self, '_read_' + name)()` over
+        def sections_called(fn, prefix):
+            """sections whose _read_X / _write_X method fn calls: directly, or through a table of names (`getattr(self, '_read_' + name)()` over
         a literal sequence -- the names are the string constants of fn that complete the prefix to an existing method)"""
-        out = {last_attr(c)[len(prefix):] for c in calls(fn) if (last_attr(c) or "").startswith(prefix)}
-        strs = [x.value for x in ast.walk(fn) if isinstance(x, ast.Constant) and isinstance(x.value, str) and len(x.value) < 40]
-        if any(x.startswith(prefix) for x in strs) and any(isinstance(c, ast.Call) and call_name(c) == "getattr" for c in ast.walk(fn)):
-            for x in strs:
-                nm = x[len(prefix):] if x.startswith(prefix) else x.strip("[]").lower()
-                if nm and prefix + nm in inp_methods:
-                    out.add(nm)
-        return out
-    reads, writes = sections_called(rd, "_read_"), sections_called(wr, "_write_")
-    for s in sorted(reads | writes):
-        chk.expect(s in reads and s in writes, "R-C12-1", "section %s is both written by InpFile.write and read by InpFile.read" % s, loc(wr),
-                   found="read=%s write=%s" % (s in reads, s in writes))
-    chk.floor("R-C12-1", 25)
+            out = {last_attr(c)[len(prefix):] for c in calls(fn) if (last_attr(c) or "").startswith(prefix)}
+            strs = [x.value for x in ast.walk(fn) if isinstance(x, ast.Constant) and isinstance(x.value, str) and len(x.value) < 40]
+            if any(x.startswith(prefix) for x in strs) and any(isinstance(c, ast.Call) and call_name(c) == "getattr" for c in ast.walk(fn)):
+                for x in strs:
+                    nm = x[len(prefix):] if x.startswith(prefix) else x.strip("[]").lower()
+                    if nm and prefix + nm in inp_methods:
+                        out.add(nm)
+            return out
+        reads, writes = sections_called(rd, "_read_"), sections_called(wr, "_write_")
+        for s in sorted(reads | writes):
+            chk.expect(s in reads and s in writes, "R-C12-1", "section %s is both written by InpFile.write and read by InpFile.read" % s, loc(wr),
+                       found="read=%s write=%s" % (s in reads, s in writes))
+        chk.floor("R-C12-1", 25)
 
     # ---------------------------------------------------------------- R-C12-2 field conversion table
-    matched = 0
-    allrows = {}
-    for sec in SECTIONS:
-        wf, W = writer_rows(repo, sec)
-        rf, R = reader_rows(repo, sec)
-        chk.fn(wf, rf)
-        allrows[sec] = (W, R)
-        Wc = [w for w in W if w.conv is not None and not is_point(w.conv)]
-        Rc = [r for r in R if r.conv is not None and (r.col is not None or r.disc) and not is_point(r.conv)]
-        for w in Wc:
-            if w.col is None and not w.disc:
-                continue
-            cands = [r for r in Rc if same_slot(w, r) and compatible(w, r)]
-            if not cands:
-                plain_r = True
-                chk.bad("R-C12-2", "[%s] column %s %s: the reader converts back what the writer converted (%s)" % (sec.upper(), w.col, sorted(w.disc), w.conv.param), w.where,
-                        "the writer prints this field in file units but the reader has no conversion for the same column / keyword: the value comes back scaled",
-                        expected="a to_si/from_si on current[%s] in _read_%s" % (w.col, sec), found="writer: %r" % w.conv)
-                continue
-            for r in cands:
-                good, why = inverse(classes, w, r)
-                matched += 1
-                chk.expect(good, "R-C12-2", "[%s] column %s %s: reader and writer conversions are inverse" % (sec.upper(), w.col, sorted(w.disc | r.disc)), w.where, why,
-                           expected="inverse of writer %r" % w.conv, found="reader %r at %s" % (r.conv, r.where))
-        for r in Rc:
-            cands = [w for w in Wc if same_slot(w, r) and compatible(w, r)]
-            if not cands:
-                plainw = [w for w in W if w.conv is None and w.col is not None and w.col == r.col and compatible(w, r)]
-                if plainw:
-                    chk.bad("R-C12-2", "[%s] column %s %s: the writer converts what the reader converts (%s)" % (sec.upper(), r.col, sorted(r.disc), r.conv.param), r.where,
-                            "the reader converts this column from file units but the writer prints the SI value unconverted", expected="from_si in _write_%s" % sec, found="writer prints %s" % plainw[0].plain)
-                else:
-                    chk.note("[%s] reader conversion %r (column %s, %s) has no writer counterpart (field not written)" % (sec.upper(), r.conv, r.col, sorted(r.disc)))
-    chk.floor("R-C12-2", 30, count=matched)
-
-    # curves: writer by curve type, readers via add_curve(name, TYPE, points); a point coordinate is identified by its index in the
-    # (x, y) pair, whatever the loop variable is called and whether the points are collected by a loop or a comprehension
-    def coord(v):
-        v = v.value if isinstance(v, Conv) else v
-        return v.key if isinstance(v, Opaque) and isinstance(v.key, int) and not isinstance(v.key, bool) else None
-    wf, W = writer_rows(repo, "curves")
-    wcur = {}
-    for w in W:
-        if w.conv is not None and coord(w.conv) is not None:
-            t = [x for x in w.disc if x in ("VOLUME", "HEAD", "EFFICIENCY", "HEADLOSS")]
-            if t:
-                wcur[(t[0], "point[%d]" % coord(w.conv))] = w
-    rcur = {}
-    for qual in ("InpFile._read_tanks", "InpFile._read_pumps", "InpFile._read_valves", "InpFile._read_energy"):
-        fn = repo.func(IO, qual)
-        chk.fn(fn)
-        states = list(reader_paths(repo, None, fn=fn)[1])
-        for sub in [n for n in ast.walk(fn) if isinstance(n, ast.FunctionDef) and n is not fn]:      # e.g. the create_curve closure of _read_pumps
-            states += CompExec(call_hook=make_hook()).run(sub)
-        for o in states:
-            for e in o.events:
-                if e[0] != "call" or (e[2][0] or "").split(".")[-1] != "add_curve" or len(e[2][1]) < 3 or not isinstance(e[2][1][1], str):
+    with chk.part("R-C12-2 field conversion table"):
+        matched = 0
+        allrows = {}
+        for sec in SECTIONS:
+            wf, W = writer_rows(repo, sec)
+            rf, R = reader_rows(repo, sec)
+            chk.fn(wf, rf)
+            allrows[sec] = (W, R)
+            Wc = [w for w in W if w.conv is not None and not is_point(w.conv)]
+            Rc = [r for r in R if r.conv is not None and (r.col is not None or r.disc) and not is_point(r.conv)]
+            for w in Wc:
+                if w.col is None and not w.disc:
                     continue
-                ctype, pts = e[2][1][1], e[2][1][2]
-                for pt in (pts if isinstance(pts, list) else []):
-                    for v in (pt if isinstance(pt, (tuple, list)) else []):
-                        if coord(v) is not None:
-                            if isinstance(v, Conv):
-                                rcur[(ctype, "point[%d]" % coord(v))] = v
-                            else:
-                                rcur.setdefault((ctype, "point[%d]" % coord(v)), None)
-    for (ctype, pt), w in sorted(wcur.items()):
-        r = rcur.get((ctype, pt))
-        if r is None:
-            chk.bad("R-C12-2", "[CURVES] %s curve %s: the reader converts back what the writer converted" % (ctype, pt), w.where, found="writer %r, reader %s" % (w.conv, "none" if (ctype, pt) not in rcur else "unconverted"))
-        else:
-            good, why = inverse(classes, w, Row("curves", "r", r, None, [], [], ""))
-            chk.expect(good, "R-C12-2", "[CURVES] %s curve %s: reader and writer conversions are inverse" % (ctype, pt), w.where, why, expected="inverse of %r" % w.conv, found=repr(r))
-    for (ctype, pt), r in sorted(rcur.items(), key=str):
-        if r is not None and (ctype, pt) not in wcur:
-            chk.bad("R-C12-2", "[CURVES] %s curve %s: the writer converts what the reader converts" % (ctype, pt), "%s:%d" % (IO, r.lineno), found="reader %r, writer unconverted" % r)
-    chk.expect(len(wcur) >= 7, "R-C12-2", "curve conversions located for VOLUME, HEAD, EFFICIENCY, HEADLOSS", loc(wf), found=sorted(wcur))
+                cands = [r for r in Rc if same_slot(w, r) and compatible(w, r)]
+                if not cands:
+                    plain_r = True
+                    chk.bad("R-C12-2", "[%s] column %s %s: the reader converts back what the writer converted (%s)" % (sec.upper(), w.col, sorted(w.disc), w.conv.param), w.where,
+                            "the writer prints this field in file units but the reader has no conversion for the same column / keyword: the value comes back scaled",
+                            expected="a to_si/from_si on current[%s] in _read_%s" % (w.col, sec), found="writer: %r" % w.conv)
+                    continue
+                for r in cands:
+                    good, why = inverse(classes, w, r)
+                    matched += 1
+                    chk.expect(good, "R-C12-2", "[%s] column %s %s: reader and writer conversions are inverse" % (sec.upper(), w.col, sorted(w.disc | r.disc)), w.where, why,
+                               expected="inverse of writer %r" % w.conv, found="reader %r at %s" % (r.conv, r.where))
+            for r in Rc:
+                cands = [w for w in Wc if same_slot(w, r) and compatible(w, r)]
+                if not cands:
+                    plainw = [w for w in W if w.conv is None and w.col is not None and w.col == r.col and compatible(w, r)]
+                    if plainw:
+                        chk.bad("R-C12-2", "[%s] column %s %s: the writer converts what the reader converts (%s)" % (sec.upper(), r.col, sorted(r.disc), r.conv.param), r.where,
+                                "the reader converts this column from file units but the writer prints the SI value unconverted", expected="from_si in _write_%s" % sec, found="writer prints %s" % plainw[0].plain)
+                    else:
+                        chk.note("[%s] reader conversion %r (column %s, %s) has no writer counterpart (field not written)" % (sec.upper(), r.conv, r.col, sorted(r.disc)))
+        chk.floor("R-C12-2", 30, count=matched)
+
+        # curves: writer by curve type, readers via add_curve(name, TYPE, points); a point coordinate is identified by its index in the
+        # (x, y) pair, whatever the loop variable is called and whether the points are collected by a loop or a comprehension
+        def coord(v):
+            v = v.value if isinstance(v, Conv) else v
+            return v.key if isinstance(v, Opaque) and isinstance(v.key, int) and not isinstance(v.key, bool) else None
+        wf, W = writer_rows(repo, "curves")
+        wcur = {}
+        for w in W:
+            if w.conv is not None and coord(w.conv) is not None:
+                t = [x for x in w.disc if x in ("VOLUME", "HEAD", "EFFICIENCY", "HEADLOSS")]
+                if t:
+                    wcur[(t[0], "point[%d]" % coord(w.conv))] = w
+        rcur = {}
+        for qual in ("InpFile._read_tanks", "InpFile._read_pumps", "InpFile._read_valves", "InpFile._read_energy"):
+            fn = repo.func(IO, qual)
+            chk.fn(fn)
+            states = list(reader_paths(repo, None, fn=fn)[1])
+            for sub in [n for n in ast.walk(fn) if isinstance(n, ast.FunctionDef) and n is not fn]:      # e.g. the create_curve closure of _read_pumps
+                states += CompExec(call_hook=make_hook()).run(sub)
+            for o in states:
+                for e in o.events:
+                    if e[0] != "call" or (e[2][0] or "").split(".")[-1] != "add_curve" or len(e[2][1]) < 3 or not isinstance(e[2][1][1], str):
+                        continue
+                    ctype, pts = e[2][1][1], e[2][1][2]
+                    for pt in (pts if isinstance(pts, list) else []):
+                        for v in (pt if isinstance(pt, (tuple, list)) else []):
+                            if coord(v) is not None:
+                                if isinstance(v, Conv):
+                                    rcur[(ctype, "point[%d]" % coord(v))] = v
+                                else:
+                                    rcur.setdefault((ctype, "point[%d]" % coord(v)), None)
+        for (ctype, pt), w in sorted(wcur.items()):
+            r = rcur.get((ctype, pt))
+            if r is None:
+                chk.bad("R-C12-2", "[CURVES] %s curve %s: the reader converts back what the writer converted" % (ctype, pt), w.where, found="writer %r, reader %s" % (w.conv, "none" if (ctype, pt) not in rcur else "unconverted"))
+            else:
+                good, why = inverse(classes, w, Row("curves", "r", r, None, [], [], ""))
+                chk.expect(good, "R-C12-2", "[CURVES] %s curve %s: reader and writer conversions are inverse" % (ctype, pt), w.where, why, expected="inverse of %r" % w.conv, found=repr(r))
+        for (ctype, pt), r in sorted(rcur.items(), key=str):
+            if r is not None and (ctype, pt) not in wcur:
+                chk.bad("R-C12-2", "[CURVES] %s curve %s: the writer converts what the reader converts" % (ctype, pt), "%s:%d" % (IO, r.lineno), found="reader %r, writer unconverted" % r)
+        chk.expect(len(wcur) >= 7, "R-C12-2", "curve conversions located for VOLUME, HEAD, EFFICIENCY, HEADLOSS", loc(wf), found=sorted(wcur))
 
     # ---------------------------------------------------------------- R-C12-13 the element tables and the curves keep the same digits
-    # A tank's maximum level and the last point of its volume curve, a pump's design point and its curve ... are the same model number
-    # printed in two sections; EPANET cross-checks them (error 225).  Every unit-converted number of the element sections and of [CURVES]
-    # must therefore survive formatting with the digits its siblings keep.  The spec of each placeholder is applied to probe values.
-    fields = []
-    for sec in ("junctions", "reservoirs", "tanks", "pipes", "pumps", "valves"):
-        fields += [w for w in allrows[sec][0] if w.conv is not None and w.spec is not None]
-    fields += [w for w in W if w.conv is not None and w.spec is not None]          # W: the [CURVES] writer rows
-    kept = {}
-    for w in fields:
-        for sp in (w.spec,) + tuple(x for x in getattr(w, "spec_also", ()) if x is not None):
-            dg = digits_kept(sp)
-            if dg is None:
-                raise ExtractError("format spec %r of [%s] column %s cannot be applied to a number" % (sp, w.section.upper(), w.col))
-            key = (w.section, w.col if w.col is not None else "/".join(sorted(w.disc)))
-            if key not in kept or dg < kept[key][0]:
-                kept[key] = (dg, sp, w)
-    if len(kept) < 15:
-        raise ExtractError("only %d formatted unit-converted fields found in the element and curve writers" % len(kept))
-    counts = {}
-    for dg, sp, w in kept.values():
-        counts[dg] = counts.get(dg, 0) + 1
-    required = min(10, max(counts, key=lambda d_: (counts[d_], d_)))
-    for (sec, col), (dg, sp, w) in sorted(kept.items(), key=str):
-        chk.expect(dg >= required, "R-C12-13", "[%s] column %s: the unit-converted number keeps the significant digits its siblings keep" % (sec.upper(), col), w.where,
-                   "numbers that are the same in the model (tank level / volume-curve point, ...) must not come out different after conversion and formatting; "
-                   "the format spec is applied to values from 1e-4 to 1e5 and the text read back", expected=">= %d significant digits" % required,
-                   found="spec %r keeps %d (%s)" % (sp, dg, w.conv.param))
-    chk.floor("R-C12-13", 15)
-    low = sorted({(r_.section, r_.spec, digits_kept(r_.spec)) for sec_ in SECTIONS for r_ in allrows[sec_][0] if r_.conv is not None and r_.spec and (digits_kept(r_.spec) or 0) < required and (r_.section, r_.col) not in kept})
-    if low:
-        chk.note("unit-converted fields outside the element / curve tables written with fewer digits (inventoried, not decided): %s" % low)
+    with chk.part("R-C12-13 the element tables and the curves keep the same digits"):
+        # A tank's maximum level and the last point of its volume curve, a pump's design point and its curve ... are the same model number
+        # printed in two sections; EPANET cross-checks them (error 225).  Every unit-converted number of the element sections and of [CURVES]
+        # must therefore survive formatting with the digits its siblings keep.  The spec of each placeholder is applied to probe values.
+        fields = []
+        for sec in ("junctions", "reservoirs", "tanks", "pipes", "pumps", "valves"):
+            fields += [w for w in allrows[sec][0] if w.conv is not None and w.spec is not None]
+        fields += [w for w in W if w.conv is not None and w.spec is not None]          # W: the [CURVES] writer rows
+        kept = {}
+        for w in fields:
+            for sp in (w.spec,) + tuple(x for x in getattr(w, "spec_also", ()) if x is not None):
+                dg = digits_kept(sp)
+                if dg is None:
+                    raise ExtractError("format spec %r of [%s] column %s cannot be applied to a number" % (sp, w.section.upper(), w.col))
+                key = (w.section, w.col if w.col is not None else "/".join(sorted(w.disc)))
+                if key not in kept or dg < kept[key][0]:
+                    kept[key] = (dg, sp, w)
+        if len(kept) < 15:
+            raise ExtractError("only %d formatted unit-converted fields found in the element and curve writers" % len(kept))
+        counts = {}
+        for dg, sp, w in kept.values():
+            counts[dg] = counts.get(dg, 0) + 1
+        required = min(10, max(counts, key=lambda d_: (counts[d_], d_)))
+        for (sec, col), (dg, sp, w) in sorted(kept.items(), key=str):
+            chk.expect(dg >= required, "R-C12-13", "[%s] column %s: the unit-converted number keeps the significant digits its siblings keep" % (sec.upper(), col), w.where,
+                       "numbers that are the same in the model (tank level / volume-curve point, ...) must not come out different after conversion and formatting; "
+                       "the format spec is applied to values from 1e-4 to 1e5 and the text read back", expected=">= %d significant digits" % required,
+                       found="spec %r keeps %d (%s)" % (sp, dg, w.conv.param))
+        chk.floor("R-C12-13", 15)
+        low = sorted({(r_.section, r_.spec, digits_kept(r_.spec)) for sec_ in SECTIONS for r_ in allrows[sec_][0] if r_.conv is not None and r_.spec and (digits_kept(r_.spec) or 0) < required and (r_.section, r_.col) not in kept})
+        if low:
+            chk.note("unit-converted fields outside the element / curve tables written with fewer digits (inventoried, not decided): %s" % low)
 
     # ---------------------------------------------------------------- R-C12-3 discriminators
-    # the reader's discriminant column is the column the writer prints the discriminator in
-    for sec, disc_attr, tokens in (("sources", "source_type", {"MASS"}), ("valves", "valve_type", {"PRV", "FCV", "TCV", "GPV"})):
-        wf = repo.func(IO, "InpFile._write_" + sec)
-        rf = repo.func(IO, "InpFile._read_" + sec)
-        W, R = allrows[sec]
-        wcol = None
-        fn_, outs, ex = run_paths(repo, "InpFile._write_" + sec)
-        for o in outs:
-            for e in o.events:
-                if e[0] == "format":
-                    args, kw = e[2]
-                    fmt = e[1]
-                    if fmt and "{" not in fmt:
-                        fmt = module_string(repo, fmt) or fmt
-                    cols, _ = file_columns(fmt) if fmt and "{" in fmt else (None, set())
-                    for k, v in [(i, a) for i, a in enumerate(args)] + list(kw.items()):
-                        if isinstance(v, Opaque) and v.text.endswith("." + disc_attr):
-                            wcol = cols.get(k) if cols else k
-        # the reader's tests as the path conditions of its abstract execution (locals are substituted by what they hold): the column(s)
-        # of `current` that are compared with the type keywords
-        rcols = set()
-        for o in reader_paths(repo, sec)[1]:
-            for t, v in o.conds:
-                if {x.upper() for x in re.findall(r"'([A-Za-z]+)'", t)} & tokens:
-                    rcols.update(int(x) for x in re.findall(r"current\[(\d+)\]", t))
-        chk.expect(wcol is not None and rcols == {wcol}, "R-C12-3", "[%s] the reader selects the conversion by the column the writer prints the %s in" % (sec.upper(), disc_attr), loc(rf),
-                   "testing another column (e.g. the node name) for the type keyword applies the wrong unit conversion", expected="column %s" % wcol, found="column(s) %s" % sorted(rcols))
-    # quality parameter discriminator is an option on both sides (path conditions of the abstract execution of both)
-    for side, q, outs_ in (("write", "InpFile._write_quality", run_paths(repo, "InpFile._write_quality")[1]), ("read", "InpFile._read_quality", reader_paths(repo, "quality")[1])):
-        f = repo.func(IO, q)
-        toks = {x.upper() for o in outs_ for t, v in o.conds if "options.quality.parameter" in t for x in re.findall(r"'([A-Za-z]+)'", t)}
-        chk.expect({"CHEMICAL", "AGE"} <= toks, "R-C12-3", "[QUALITY] %s selects the unit by options.quality.parameter" % side, loc(f), found=sorted(toks))
+    with chk.part("R-C12-3 discriminators"):
+        # the reader's discriminant column is the column the writer prints the discriminator in
+        for sec, disc_attr, tokens in (("sources", "source_type", {"MASS"}), ("valves", "valve_type", {"PRV", "FCV", "TCV", "GPV"})):
+            wf = repo.func(IO, "InpFile._write_" + sec)
+            rf = repo.func(IO, "InpFile._read_" + sec)
+            W, R = allrows[sec]
+            wcol = None
+            fn_, outs, ex = run_paths(repo, "InpFile._write_" + sec)
+            for o in outs:
+                for e in o.events:
+                    if e[0] == "format":
+                        args, kw = e[2]
+                        fmt = e[1]
+                        if fmt and "{" not in fmt:
+                            fmt = module_string(repo, fmt) or fmt
+                        cols, _ = file_columns(fmt) if fmt and "{" in fmt else (None, set())
+                        for k, v in [(i, a) for i, a in enumerate(args)] + list(kw.items()):
+                            if isinstance(v, Opaque) and v.text.endswith("." + disc_attr):
+                                wcol = cols.get(k) if cols else k
+            # the reader's tests as the path conditions of its abstract execution (locals are substituted by what they hold): the column(s)
+            # of `current` that are compared with the type keywords
+            rcols = set()
+            for o in reader_paths(repo, sec)[1]:
+                for t, v in o.conds:
+                    if {x.upper() for x in re.findall(r"'([A-Za-z]+)'", t)} & tokens:
+                        rcols.update(int(x) for x in re.findall(r"current\[(\d+)\]", t))
+            chk.expect(wcol is not None and rcols == {wcol}, "R-C12-3", "[%s] the reader selects the conversion by the column the writer prints the %s in" % (sec.upper(), disc_attr), loc(rf),
+                       "testing another column (e.g. the node name) for the type keyword applies the wrong unit conversion", expected="column %s" % wcol, found="column(s) %s" % sorted(rcols))
+        # quality parameter discriminator is an option on both sides (path conditions of the abstract execution of both)
+        for side, q, outs_ in (("write", "InpFile._write_quality", run_paths(repo, "InpFile._write_quality")[1]), ("read", "InpFile._read_quality", reader_paths(repo, "quality")[1])):
+            f = repo.func(IO, q)
+            toks = {x.upper() for o in outs_ for t, v in o.conds if "options.quality.parameter" in t for x in re.findall(r"'([A-Za-z]+)'", t)}
+            chk.expect({"CHEMICAL", "AGE"} <= toks, "R-C12-3", "[QUALITY] %s selects the unit by options.quality.parameter" % side, loc(f), found=sorted(toks))
 
     # ---------------------------------------------------------------- R-C12-4 order dependence
-    rf = repo.func(IO, "InpFile._read_reactions")
-    wf = repo.func(IO, "InpFile._write_reactions")
-    W, R = allrows["reactions"]
-    needs = set()
-    for r in R:
-        for k, v in r.conv.flags.items():
-            m = re.search(r"options\.reaction\.(\w+_order)", v)
-            if m:
-                needs.add(m.group(1))
-    # on every path of the writer, in the order the lines are written: the ORDER lines announced so far when a coefficient line is written
-    announced_any = set()
-    coeff = {}      # (keyword, order) -> [ok on every path, line]
-    for o in run_paths(repo, wf)[1]:
-        if o.raised:
-            continue
-        announced = set()
-        for e in o.events:
-            if e[0] != "format":
-                continue
-            args, kw = e[2]
-            vals = list(args) + list(kw.values())
-            strs = [a_ for a_ in vals if isinstance(a_, str)]
-            if "ORDER" in [x.upper() for x in strs]:
-                for a_ in vals:
-                    m = re.search(r"options\.reaction\.(\w+_order)$", a_.text) if isinstance(a_, Opaque) else None
-                    if m:
-                        announced.add(m.group(1))
-                        announced_any.add(m.group(1))
-                continue
-            for c, p_ in find_convs(vals):
-                m = re.search(r"options\.reaction\.(\w+_order)", c.flags.get("reaction_order", ""))
+    with chk.part("R-C12-4 order dependence"):
+        rf = repo.func(IO, "InpFile._read_reactions")
+        wf = repo.func(IO, "InpFile._write_reactions")
+        W, R = allrows["reactions"]
+        needs = set()
+        for r in R:
+            for k, v in r.conv.flags.items():
+                m = re.search(r"options\.reaction\.(\w+_order)", v)
                 if m:
-                    ent = coeff.setdefault((strs[0] if strs else "?", m.group(1)), [True, c.lineno])
-                    ent[0] = ent[0] and m.group(1) in announced
-    for (kw, order), (ok_, ln) in sorted(coeff.items()):
-        chk.expect(ok_, "R-C12-4", "[REACTIONS] the %s line is written after the ORDER line its conversion depends on (%s)" % (kw, order), "%s:%d" % (IO, ln),
-                   "the reader converts each coefficient with the reaction order it has parsed SO FAR; a coefficient written before its ORDER line is read back with the default order",
-                   expected="ORDER %s line first" % order, found="a path writes the %s coefficient before (or without) the ORDER line of %s" % (kw, order))
-    chk.floor("R-C12-4", 4)
-    chk.expect(needs <= announced_any, "R-C12-4", "[REACTIONS] every order the reader's conversions depend on is written", loc(wf), found=(sorted(needs), sorted(announced_any)))
+                    needs.add(m.group(1))
+        # on every path of the writer, in the order the lines are written: the ORDER lines announced so far when a coefficient line is written
+        announced_any = set()
+        coeff = {}      # (keyword, order) -> [ok on every path, line]
+        for o in run_paths(repo, wf)[1]:
+            if o.raised:
+                continue
+            announced = set()
+            for e in o.events:
+                if e[0] != "format":
+                    continue
+                args, kw = e[2]
+                vals = list(args) + list(kw.values())
+                strs = [a_ for a_ in vals if isinstance(a_, str)]
+                if "ORDER" in [x.upper() for x in strs]:
+                    for a_ in vals:
+                        m = re.search(r"options\.reaction\.(\w+_order)$", a_.text) if isinstance(a_, Opaque) else None
+                        if m:
+                            announced.add(m.group(1))
+                            announced_any.add(m.group(1))
+                    continue
+                for c, p_ in find_convs(vals):
+                    m = re.search(r"options\.reaction\.(\w+_order)", c.flags.get("reaction_order", ""))
+                    if m:
+                        ent = coeff.setdefault((strs[0] if strs else "?", m.group(1)), [True, c.lineno])
+                        ent[0] = ent[0] and m.group(1) in announced
+        for (kw, order), (ok_, ln) in sorted(coeff.items()):
+            chk.expect(ok_, "R-C12-4", "[REACTIONS] the %s line is written after the ORDER line its conversion depends on (%s)" % (kw, order), "%s:%d" % (IO, ln),
+                       "the reader converts each coefficient with the reaction order it has parsed SO FAR; a coefficient written before its ORDER line is read back with the default order",
+                       expected="ORDER %s line first" % order, found="a path writes the %s coefficient before (or without) the ORDER line of %s" % (kw, order))
+        chk.floor("R-C12-4", 4)
+        chk.expect(needs <= announced_any, "R-C12-4", "[REACTIONS] every order the reader's conversions depend on is written", loc(wf), found=(sorted(needs), sorted(announced_any)))
 
     # ---------------------------------------------------------------- controls
-    # Whole-function abstract execution of the writer and of the reader (helpers the setting / threshold is computed in -- a nested def,
-    # a method reached through self -- are stepped into); the facts compared are WHERE a converted value lands: the writer's value for
-    # the placeholder in file column 2 / 7 of a [CONTROLS] line, the reader's ControlAction(..., 'setting', v) / threshold argument.
-    wctl = repo.func(IO, "InpFile._write_controls")
-    rctl = repo.func(IO, "_read_control_line")
-    chk.fn(wctl, rctl)
-    VTS = ("PRV", "PSV", "PBV", "FCV", "TCV", "GPV")
-    wmap, th_w = controls_writer_facts(repo, wctl, VTS)
-    rmap, th_r, rcols = controls_reader_facts(repo, rctl, VTS)
+    with chk.part("controls"):
+        # Whole-function abstract execution of the writer and of the reader (helpers the setting / threshold is computed in -- a nested def,
+        # a method reached through self -- are stepped into); the facts compared are WHERE a converted value lands: the writer's value for
+        # the placeholder in file column 2 / 7 of a [CONTROLS] line, the reader's ControlAction(..., 'setting', v) / threshold argument.
+        wctl = repo.func(IO, "InpFile._write_controls")
+        rctl = repo.func(IO, "_read_control_line")
+        chk.fn(wctl, rctl)
+        VTS = ("PRV", "PSV", "PBV", "FCV", "TCV", "GPV")
+        wmap, th_w = controls_writer_facts(repo, wctl, VTS)
+        rmap, th_r, rcols = controls_reader_facts(repo, rctl, VTS)
 
-    def pcs(ps):
-        return {pclass(classes, p) if p else None for p in ps}
-    for vt in VTS:
-        chk.expect(len(wmap[vt]) == 1 and len(rmap[vt]) == 1 and pcs(wmap[vt]) == pcs(rmap[vt]), "R-C12-2", "[CONTROLS] %s setting: writer and reader use the same unit class" % vt, loc(rctl),
-                   expected="writer %s" % sorted(map(str, wmap[vt])), found="reader %s" % sorted(map(str, rmap[vt])))
-    chk.expect(rcols["setting"] <= {2}, "R-C12-2", "[CONTROLS] the reader converts the setting it finds in the column the writer prints it in (column 2)", loc(rctl), found=sorted(rcols["setting"], key=str))
-    # thresholds
-    for nt in ("Tank", "Junction"):
-        w_, r_ = th_w.get(nt, set()), {p for a_, p, c_ in th_r.get(nt, set())}
-        chk.expect(len(w_) == 1 and len(r_) == 1 and None not in w_ and pcs(w_) == pcs(r_) and {c_ for a_, p, c_ in th_r[nt]} == {7}, "R-C12-2",
-                   "[CONTROLS] %s threshold: writer and reader use the same unit class (column 7)" % nt, loc(rctl),
-                   expected=sorted(map(str, w_)), found=sorted(map(str, th_r.get(nt, set()))))
-    attr_r = {nt: sorted({a_ for a_, p, c_ in v}) for nt, v in th_r.items()}
-    chk.expect(attr_r == {"Junction": ["pressure"], "Tank": ["level"]}, "R-C12-2", "[CONTROLS] junction thresholds are pressures, tank thresholds are levels", loc(rctl), found=attr_r)
+        def pcs(ps):
+            return {pclass(classes, p) if p else None for p in ps}
+        for vt in VTS:
+            chk.expect(len(wmap[vt]) == 1 and len(rmap[vt]) == 1 and pcs(wmap[vt]) == pcs(rmap[vt]), "R-C12-2", "[CONTROLS] %s setting: writer and reader use the same unit class" % vt, loc(rctl),
+                       expected="writer %s" % sorted(map(str, wmap[vt])), found="reader %s" % sorted(map(str, rmap[vt])))
+        chk.expect(rcols["setting"] <= {2}, "R-C12-2", "[CONTROLS] the reader converts the setting it finds in the column the writer prints it in (column 2)", loc(rctl), found=sorted(rcols["setting"], key=str))
+        # thresholds
+        for nt in ("Tank", "Junction"):
+            w_, r_ = th_w.get(nt, set()), {p for a_, p, c_ in th_r.get(nt, set())}
+            chk.expect(len(w_) == 1 and len(r_) == 1 and None not in w_ and pcs(w_) == pcs(r_) and {c_ for a_, p, c_ in th_r[nt]} == {7}, "R-C12-2",
+                       "[CONTROLS] %s threshold: writer and reader use the same unit class (column 7)" % nt, loc(rctl),
+                       expected=sorted(map(str, w_)), found=sorted(map(str, th_r.get(nt, set()))))
+        attr_r = {nt: sorted({a_ for a_, p, c_ in v}) for nt, v in th_r.items()}
+        chk.expect(attr_r == {"Junction": ["pressure"], "Tank": ["level"]}, "R-C12-2", "[CONTROLS] junction thresholds are pressures, tank thresholds are levels", loc(rctl), found=attr_r)
     # (the time token of simple time controls is decided by R-C12-8: finite evaluation of writer and reader, any text format accepted)
 
     # ---------------------------------------------------------------- rules: six sibling attribute -> unit maps
-    rule = repo.cls(IO, "_EpanetRule")
-    meths = repo.methods(rule)
-    ATTRS = ["demand", "head", "level", "flow", "pressure", "setting", "status"]
-    RVTS = ("PRV", "PSV", "PBV", "FCV", "TCV", "GPV")
-    maps = {}
+    with chk.part("rules: six sibling attribute -> unit maps"):
+        rule = repo.cls(IO, "_EpanetRule")
+        meths = repo.methods(rule)
+        ATTRS = ["demand", "head", "level", "flow", "pressure", "setting", "status"]
+        RVTS = ("PRV", "PSV", "PBV", "FCV", "TCV", "GPV")
+        maps = {}
 
-    def eval_block(fn, stmts, env, test_hook, sinks):
-        """attribute (and, for `setting`, kind of link / valve type) -> conversion of the value that reaches a sink: the arguments of a
+        def eval_block(fn, stmts, env, test_hook, sinks):
+            """attribute (and, for `setting`, kind of link / valve type) -> conversion of the value that reaches a sink: the arguments of a
         `.format` call (writer: sinks=None) or of a constructor call named in `sinks` (reader).  The attribute is injected where the code
         reads it (the action's / condition's attribute field, the 4th token of a clause), the valve type where it reads valve_type;
         names of locals, the form of the dispatch and the place of the code (in line / helper) do not matter."""
-        out = {}
-        for a, vt in [(a, None) for a in ATTRS if a != "setting"] + [("setting", v) for v in RVTS]:
-            def ah(base, attr, st, a=a, vt=vt):
-                if isinstance(base, Opaque) and attr in ("_source_attr", "_attribute"):
-                    return a
-                if isinstance(base, Opaque) and attr == "valve_type" and vt is not None:
-                    return vt
-                return NotImplemented
+            out = {}
+            for a, vt in [(a, None) for a in ATTRS if a != "setting"] + [("setting", v) for v in RVTS]:
+                def ah(base, attr, st, a=a, vt=vt):
+                    if isinstance(base, Opaque) and attr in ("_source_attr", "_attribute"):
+                        return a
+                    if isinstance(base, Opaque) and attr == "valve_type" and vt is not None:
+                        return vt
+                    return NotImplemented
 
-            def ch(name, node, args, kwargs, st, ex, recv, a=a):
-                meth = node.func.attr if isinstance(node.func, ast.Attribute) else None
-                if meth == "lower" and isinstance(recv, Opaque) and (recv.key == 3 or (recv.key is None and re.search(r"\[3\]$", recv.text))):
-                    return a                       # clause grammar: CONJ TYPE ID ATTRIBUTE ... -- the 4th token is the attribute
-                if meth == "upper" and isinstance(recv, Opaque):
-                    return recv
-                if name and name.endswith("_parse_value"):
-                    return args[0]
-                if name and name.endswith("_repr_value"):
-                    return Opaque("val_si")
-                return NotImplemented
-            ex = CompExec(call_hook=make_hook(ch), attr_hook=ah, test_hook=test_hook, inline=inline_table(repo, fn))
-            st = State(dict(env))
-            res = out.setdefault(a, set())
-            for o in ex.block(stmts, [st]):
-                if o.raised:
-                    continue
-                conv, sunk = None, False
-                for e in o.events:
-                    if sinks is None and e[0] == "format":
-                        sunk = True
-                        for c, p in find_convs(e[2][0]):
-                            conv = c
-                    elif sinks is not None and e[0] == "call" and (e[2][0] or "").split(".")[-1] in sinks:
-                        sunk = True
-                        for c, p in find_convs(e[2][1]):
-                            conv = c
-                if not sunk:
-                    continue
-                isvalve = [vv for t, vv in o.conds if "isinstance(" in t and _isinstance_class(t) == "Valve"]
-                ispump = [vv for t, vv in o.conds if "isinstance(" in t and _isinstance_class(t) == "Pump"]
-                kind = vt if (isvalve and isvalve[-1]) else ("pump" if (ispump and ispump[-1]) else "other")
-                if a != "setting":
-                    kind = ""
-                res.add((kind, pclass(classes, conv.param) and conv.param.split(".")[-1] if conv else None, conv.direction if conv else None))
-        return out
+                def ch(name, node, args, kwargs, st, ex, recv, a=a):
+                    meth = node.func.attr if isinstance(node.func, ast.Attribute) else None
+                    if meth == "lower" and isinstance(recv, Opaque) and (recv.key == 3 or (recv.key is None and re.search(r"\[3\]$", recv.text))):
+                        return a                       # clause grammar: CONJ TYPE ID ATTRIBUTE ... -- the 4th token is the attribute
+                    if meth == "upper" and isinstance(recv, Opaque):
+                        return recv
+                    if name and name.endswith("_parse_value"):
+                        return args[0]
+                    if name and name.endswith("_repr_value"):
+                        return Opaque("val_si")
+                    return NotImplemented
+                ex = CompExec(call_hook=make_hook(ch), attr_hook=ah, test_hook=test_hook, inline=inline_table(repo, fn))
+                st = State(dict(env))
+                res = out.setdefault(a, set())
+                for o in ex.block(stmts, [st]):
+                    if o.raised:
+                        continue
+                    conv, sunk = None, False
+                    for e in o.events:
+                        if sinks is None and e[0] == "format":
+                            sunk = True
+                            for c, p in find_convs(e[2][0]):
+                                conv = c
+                        elif sinks is not None and e[0] == "call" and (e[2][0] or "").split(".")[-1] in sinks:
+                            sunk = True
+                            for c, p in find_convs(e[2][1]):
+                                conv = c
+                    if not sunk:
+                        continue
+                    isvalve = [vv for t, vv in o.conds if "isinstance(" in t and _isinstance_class(t) == "Valve"]
+                    ispump = [vv for t, vv in o.conds if "isinstance(" in t and _isinstance_class(t) == "Pump"]
+                    kind = vt if (isvalve and isvalve[-1]) else ("pump" if (ispump and ispump[-1]) else "other")
+                    if a != "setting":
+                        kind = ""
+                    res.add((kind, pclass(classes, conv.param) and conv.param.split(".")[-1] if conv else None, conv.direction if conv else None))
+            return out
 
-    def norm_map(m):
-        """collapse to (attr, kind) -> class name; entries without conversion are left out."""
-        out = {}
-        for a, res in m.items():
-            for kind, p, direction in res:
-                if p is None:
-                    continue
-                out[(a, kind)] = classes_name(p)
-        return out
+        def norm_map(m):
+            """collapse to (attr, kind) -> class name; entries without conversion are left out."""
+            out = {}
+            for a, res in m.items():
+                for kind, p, direction in res:
+                    if p is None:
+                        continue
+                    out[(a, kind)] = classes_name(p)
+            return out
 
-    def classes_name(p):
-        c = pclass(classes, "HydParam." + p)
-        for k, v in sorted(classes.items()):
-            if v == c:
-                return k
-        return p
-    # writer blocks
-    def th_w(t, n, s):
-        c = _isinstance_class(t) if "isinstance(" in t else None
-        if c in ("ValueCondition", "ControlAction"):
-            return True
-        if c in ("OrCondition", "AndCondition", "TimeOfDayCondition", "SimTimeCondition"):
-            return False
-        return None
-    for mname in ("add_control_condition", "add_action_on_true", "add_action_on_false"):
-        fn = meths[mname]
-        chk.fn(fn)
-        m = eval_block(fn, fn.body, {a.arg: Opaque(a.arg) for a in fn.args.args}, th_w, None)
-        maps["write:" + mname] = norm_map(m)
-        dirs = {x[2] for res in m.values() for x in res if x[2]}
-        chk.expect(dirs == {"from_si"}, "R-C12-2", "[RULES] %s converts SI values to file units" % mname, loc(fn), found=sorted(dirs))
-    gen = meths["generate_control"]
-    chk.fn(gen)
+        def classes_name(p):
+            c = pclass(classes, "HydParam." + p)
+            for k, v in sorted(classes.items()):
+                if v == c:
+                    return k
+            return p
+        # writer blocks
+        def th_w(t, n, s):
+            c = _isinstance_class(t) if "isinstance(" in t else None
+            if c in ("ValueCondition", "ControlAction"):
+                return True
+            if c in ("OrCondition", "AndCondition", "TimeOfDayCondition", "SimTimeCondition"):
+                return False
+            return None
+        for mname in ("add_control_condition", "add_action_on_true", "add_action_on_false"):
+            fn = meths[mname]
+            chk.fn(fn)
+            m = eval_block(fn, fn.body, {a.arg: Opaque(a.arg) for a in fn.args.args}, th_w, None)
+            maps["write:" + mname] = norm_map(m)
+            dirs = {x[2] for res in m.values() for x in res if x[2]}
+            chk.expect(dirs == {"from_si"}, "R-C12-2", "[RULES] %s converts SI values to file units" % mname, loc(fn), found=sorted(dirs))
+        gen = meths["generate_control"]
+        chk.fn(gen)
 
-    def clause_block(kind):
-        """the statements generate_control executes once per clause of the given kind (the body of the loop -- or the element of the
+        def clause_block(kind):
+            """the statements generate_control executes once per clause of the given kind (the body of the loop -- or the element of the
         comprehension -- that iterates over self._<kind>_clauses), with the iteration variable(s)."""
-        key = "_%s_clauses" % kind
-        for n in walk(gen):
-            if isinstance(n, ast.For) and key in unparse(n.iter):
-                return n, n.target, list(n.body)
-        for n in walk(gen):
-            if isinstance(n, (ast.ListComp, ast.GeneratorExp)) and len(n.generators) == 1 and key in unparse(n.generators[0].iter):
-                elt = n.elt
-                # an element that is a call of a sibling method: continue in that method's body
-                if isinstance(elt, ast.Call) and isinstance(elt.func, ast.Attribute) and isinstance(elt.func.value, ast.Name) and elt.func.value.id in ("self", "cls") \
-                        and elt.func.attr in meths and not elt.keywords:
-                    callee = meths[elt.func.attr]
-                    params = [a.arg for a in callee.args.args][1:]
-                    if len(params) == len(elt.args):
-                        pre = [ast.Assign(targets=[ast.Name(id=p_, ctx=ast.Store())], value=a_) for p_, a_ in zip(params, elt.args) if not (isinstance(a_, ast.Name) and a_.id == p_)]
-                        for x in pre:
-                            ast.copy_location(x, elt)
-                            ast.fix_missing_locations(x)
-                        return n, n.generators[0].target, pre + list(callee.body)
-                st_ = ast.Expr(value=elt)
-                ast.copy_location(st_, elt)
-                return n, n.generators[0].target, [st_]
-        raise AnchorError("generate_control: no iteration over self.%s found" % key)
-    for nm, sinks in (("if", ("ValueCondition",)), ("then", ("ControlAction",)), ("else", ("ControlAction",))):
-        lp, tgt, body = clause_block(nm)
-        th = (lambda t, n, s: (False if "'SYSTEM'" in t else None))
-        env = {"self": Opaque("self")}
-        for x in ast.walk(tgt):
-            if isinstance(x, ast.Name):
-                env[x.id] = Opaque(x.id)
-        m = eval_block(gen, body, env, th, sinks)
-        maps["read:" + nm] = norm_map(m)
-        dirs = {x[2] for res in m.values() for x in res if x[2]}
-        chk.expect(dirs == {"to_si"}, "R-C12-2", "[RULES] generate_control (%s clauses) converts file units to SI" % nm, loc(gen, lp), found=sorted(dirs))
-    ref_name, ref = sorted(maps.items())[0]
-    for name, mp in sorted(maps.items()):
-        chk.expect(mp == ref, "R-C12-2", "[RULES] %s uses the same attribute -> unit map as %s" % (name, ref_name), loc(IO, rule),
-                   "the six sibling blocks that print and parse rule thresholds/settings must agree on which attribute carries which unit (else a rule's value changes on a round trip)",
-                   expected=sorted((str(k), v) for k, v in ref.items()), found=sorted((str(k), v) for k, v in mp.items()))
-    want_keys = {("demand", ""), ("head", ""), ("level", ""), ("flow", ""), ("pressure", ""), ("setting", "PRV"), ("setting", "PSV"), ("setting", "PBV"), ("setting", "FCV")}
-    chk.expect(set(ref) == want_keys, "R-C12-2", "[RULES] the unit map covers demand, head, level, flow, pressure and valve settings (PRV/PSV/PBV pressure, FCV flow)", loc(IO, rule), found=sorted(map(str, ref)))
-    chk.sample({"rule": "R-C12-2", "rules attribute->unit map": {str(k): v for k, v in ref.items()}})
+            key = "_%s_clauses" % kind
+            for n in walk(gen):
+                if isinstance(n, ast.For) and key in unparse(n.iter):
+                    return n, n.target, list(n.body)
+            for n in walk(gen):
+                if isinstance(n, (ast.ListComp, ast.GeneratorExp)) and len(n.generators) == 1 and key in unparse(n.generators[0].iter):
+                    elt = n.elt
+                    # an element that is a call of a sibling method: continue in that method's body
+                    if isinstance(elt, ast.Call) and isinstance(elt.func, ast.Attribute) and isinstance(elt.func.value, ast.Name) and elt.func.value.id in ("self", "cls") \
+                            and elt.func.attr in meths and not elt.keywords:
+                        callee = meths[elt.func.attr]
+                        params = [a.arg for a in callee.args.args][1:]
+                        if len(params) == len(elt.args):
+                            pre = [ast.Assign(targets=[ast.Name(id=p_, ctx=ast.Store())], value=a_) for p_, a_ in zip(params, elt.args) if not (isinstance(a_, ast.Name) and a_.id == p_)]
+                            for x in pre:
+                                ast.copy_location(x, elt)
+                                ast.fix_missing_locations(x)
+                            return n, n.generators[0].target, pre + list(callee.body)
+                    st_ = ast.Expr(value=elt)
+                    ast.copy_location(st_, elt)
+                    return n, n.generators[0].target, [st_]
+            raise AnchorError("generate_control: no iteration over self.%s found" % key)
+        for nm, sinks in (("if", ("ValueCondition",)), ("then", ("ControlAction",)), ("else", ("ControlAction",))):
+            lp, tgt, body = clause_block(nm)
+            th = (lambda t, n, s: (False if "'SYSTEM'" in t else None))
+            env = {"self": Opaque("self")}
+            for x in ast.walk(tgt):
+                if isinstance(x, ast.Name):
+                    env[x.id] = Opaque(x.id)
+            m = eval_block(gen, body, env, th, sinks)
+            maps["read:" + nm] = norm_map(m)
+            dirs = {x[2] for res in m.values() for x in res if x[2]}
+            chk.expect(dirs == {"to_si"}, "R-C12-2", "[RULES] generate_control (%s clauses) converts file units to SI" % nm, loc(gen, lp), found=sorted(dirs))
+        ref_name, ref = sorted(maps.items())[0]
+        for name, mp in sorted(maps.items()):
+            chk.expect(mp == ref, "R-C12-2", "[RULES] %s uses the same attribute -> unit map as %s" % (name, ref_name), loc(IO, rule),
+                       "the six sibling blocks that print and parse rule thresholds/settings must agree on which attribute carries which unit (else a rule's value changes on a round trip)",
+                       expected=sorted((str(k), v) for k, v in ref.items()), found=sorted((str(k), v) for k, v in mp.items()))
+        want_keys = {("demand", ""), ("head", ""), ("level", ""), ("flow", ""), ("pressure", ""), ("setting", "PRV"), ("setting", "PSV"), ("setting", "PBV"), ("setting", "FCV")}
+        chk.expect(set(ref) == want_keys, "R-C12-2", "[RULES] the unit map covers demand, head, level, flow, pressure and valve settings (PRV/PSV/PBV pressure, FCV flow)", loc(IO, rule), found=sorted(map(str, ref)))
+        chk.sample({"rule": "R-C12-2", "rules attribute->unit map": {str(k): v for k, v in ref.items()}})
 
     # ---------------------------------------------------------------- R-C12-6 version 2.0 (differential: the writer is executed abstractly for version=2.0 and =2.2)
-    wo = repo.func(IO, "InpFile._write_options")
-    wt = repo.func(IO, "InpFile._write_tanks")
-    chk.fn(wo, wt)
-    ol20, ol22 = option_lines(repo, wo, 2.0), option_lines(repo, wo, 2.2)
-    lab20, lab22 = {l for l, a_ in ol20}, {l for l, a_ in ol22}
-    want_g = {"HEADERROR", "FLOWCHANGE", "DEMAND MODEL", "MINIMUM PRESSURE", "REQUIRED PRESSURE", "PRESSURE EXPONENT"}
-    chk.expect(lab22 - lab20 == want_g and lab20 <= lab22 and len(lab20) >= 10, "R-C12-6", "only the EPANET 2.2-specific options are omitted from 2.0-format files", loc(wo),
-               expected=sorted(want_g), found="2.2 only: %s; 2.0 only: %s" % (sorted(lab22 - lab20), sorted(lab20 - lab22)))
-    tl20, tl22 = tank_lines(repo, wt, 2.0), tank_lines(repo, wt, 2.2)
-    chk.expect(all(o in ("", None) for c_, o in tl20) and any(o not in ("", None) for c_, o in tl22), "R-C12-6", "the tank overflow column is written for 2.2 only", loc(wt),
-               found="overflow column: 2.0 %s, 2.2 %s" % (sorted({str(o) for c_, o in tl20}), sorted({str(o) for c_, o in tl22})))
-    # R-C12-12: whatever else the line carries, a tank that has a volume curve is written with that curve's name (the reader maps any other token to "no curve")
-    for ver, tl in ((2.0, tl20), (2.2, tl22)):
-        wrong = [c_ for c_, o in tl if not (isinstance(c_, Opaque) and "vol_curve" in c_.text)]
-        chk.expect(not wrong, "R-C12-12", "[TANKS] a tank that has a volume curve is written with the curve's name in the curve column (format %s)" % ver, loc(wt),
-                   "the curve column of a tank with a volume curve must carry the curve name on every path; a placeholder there makes the tank cylindrical on read",
-                   expected="<tank>.vol_curve.name", found=[str(x) for x in wrong[:3]])
+    with chk.part("R-C12-6 version 2.0 (differential: the writer is executed abstractly for version=2.0 and ="):
+        wo = repo.func(IO, "InpFile._write_options")
+        wt = repo.func(IO, "InpFile._write_tanks")
+        chk.fn(wo, wt)
+        ol20, ol22 = option_lines(repo, wo, 2.0), option_lines(repo, wo, 2.2)
+        lab20, lab22 = {l for l, a_ in ol20}, {l for l, a_ in ol22}
+        want_g = {"HEADERROR", "FLOWCHANGE", "DEMAND MODEL", "MINIMUM PRESSURE", "REQUIRED PRESSURE", "PRESSURE EXPONENT"}
+        chk.expect(lab22 - lab20 == want_g and lab20 <= lab22 and len(lab20) >= 10, "R-C12-6", "only the EPANET 2.2-specific options are omitted from 2.0-format files", loc(wo),
+                   expected=sorted(want_g), found="2.2 only: %s; 2.0 only: %s" % (sorted(lab22 - lab20), sorted(lab20 - lab22)))
+        tl20, tl22 = tank_lines(repo, wt, 2.0), tank_lines(repo, wt, 2.2)
+        chk.expect(all(o in ("", None) for c_, o in tl20) and any(o not in ("", None) for c_, o in tl22), "R-C12-6", "the tank overflow column is written for 2.2 only", loc(wt),
+                   found="overflow column: 2.0 %s, 2.2 %s" % (sorted({str(o) for c_, o in tl20}), sorted({str(o) for c_, o in tl22})))
+        # R-C12-12: whatever else the line carries, a tank that has a volume curve is written with that curve's name (the reader maps any other token to "no curve")
+        for ver, tl in ((2.0, tl20), (2.2, tl22)):
+            wrong = [c_ for c_, o in tl if not (isinstance(c_, Opaque) and "vol_curve" in c_.text)]
+            chk.expect(not wrong, "R-C12-12", "[TANKS] a tank that has a volume curve is written with the curve's name in the curve column (format %s)" % ver, loc(wt),
+                       "the curve column of a tank with a volume curve must carry the curve name on every path; a placeholder there makes the tank cylindrical on read",
+                       expected="<tank>.vol_curve.name", found=[str(x) for x in wrong[:3]])
 
     # ---------------------------------------------------------------- R-C12-5 pressure options
-    ro = repo.func(IO, "InpFile._read_options")
-    chk.fn(ro)
-    rconv = option_reader_convs(repo, ro)
-    for key, attr in (("MINIMUM PRESSURE", "minimum_pressure"), ("REQUIRED PRESSURE", "required_pressure")):
-        wcs = [c for l, a_ in ol22 if l == key for c, p_ in find_convs(a_)]
-        w_ok = bool(wcs) and all(c.direction == "from_si" and pclass(classes, c.param) == classes["HydParam.Pressure"] and c.vtext().endswith("hydraulic." + attr) for c in wcs)
-        rcs = rconv.get(attr, set())
-        r_ok = bool(rcs) and all(d_ == "to_si" and pclass(classes, p_) == classes["HydParam.Pressure"] and k_ == len(key.split()) and key.split()[0] in t_ for d_, p_, k_, t_ in rcs)
-        chk.expect(w_ok and r_ok, "R-C12-5", "[OPTIONS] %s is written with from_si(Pressure) and read with to_si(Pressure)" % key, loc(wo),
-                   found=("writer %s" % sorted(map(repr, wcs)), "reader %s" % sorted((d_, p_, k_) for d_, p_, k_, t_ in rcs)))
+    with chk.part("R-C12-5 pressure options"):
+        ro = repo.func(IO, "InpFile._read_options")
+        chk.fn(ro)
+        rconv = option_reader_convs(repo, ro)
+        for key, attr in (("MINIMUM PRESSURE", "minimum_pressure"), ("REQUIRED PRESSURE", "required_pressure")):
+            wcs = [c for l, a_ in ol22 if l == key for c, p_ in find_convs(a_)]
+            w_ok = bool(wcs) and all(c.direction == "from_si" and pclass(classes, c.param) == classes["HydParam.Pressure"] and c.vtext().endswith("hydraulic." + attr) for c in wcs)
+            rcs = rconv.get(attr, set())
+            r_ok = bool(rcs) and all(d_ == "to_si" and pclass(classes, p_) == classes["HydParam.Pressure"] and k_ == len(key.split()) and key.split()[0] in t_ for d_, p_, k_, t_ in rcs)
+            chk.expect(w_ok and r_ok, "R-C12-5", "[OPTIONS] %s is written with from_si(Pressure) and read with to_si(Pressure)" % key, loc(wo),
+                       found=("writer %s" % sorted(map(repr, wcs)), "reader %s" % sorted((d_, p_, k_) for d_, p_, k_, t_ in rcs)))
 
     # ---------------------------------------------------------------- R-C12-7 time helpers
-    s2s = repo.func(IO, "_sec_to_string")
-    t2s = repo.func(IO, "_str_time_to_sec")
-    chk.fn(s2s, t2s)
-    # finite evaluation of both helpers (stdlib str / re calls modelled, nothing from the repository runs): any way of writing the
-    # arithmetic is accepted, only the values count
-    from ._shared import _string_evaluator
-    from ..peval import Raised
-    SEv, shook = _string_evaluator(repo)
+    with chk.part("R-C12-7 time helpers"):
+        s2s = repo.func(IO, "_sec_to_string")
+        t2s = repo.func(IO, "_str_time_to_sec")
+        chk.fn(s2s, t2s)
+        # finite evaluation of both helpers (stdlib str / re calls modelled, nothing from the repository runs): any way of writing the
+        # arithmetic is accepted, only the values count
+        from ._shared import _string_evaluator
+        from ..peval import Raised
+        SEv, shook = _string_evaluator(repo)
 
-    def call_fn(fn, *vals):
-        try:
-            return SEv({a.arg: v for a, v in zip(fn.args.args, vals)}, None, shook).run(fn.body)
-        except Raised:
-            return "raises"
-        except Unknown as ex_:
-            raise ExtractError("%s not evaluable: %s" % (fn.name, ex_))
-    bad = None
-    for sec in (0, 59, 60, 3599, 3600, 3661, 43200, 86399, 90061, 360000):
-        r = call_fn(s2s, sec)
-        if not (isinstance(r, (list, tuple)) and len(r) == 3 and all(isinstance(x, int) for x in r) and r[0] * 3600 + r[1] * 60 + r[2] == sec and 0 <= r[1] < 60 and 0 <= r[2] < 60):
-            bad = bad or (sec, r)
-    chk.expect(bad is None, "R-C12-7", "_sec_to_string(sec) = (h, m, s) with h*3600 + m*60 + s = sec and 0 <= m, s < 60", loc(s2s), found=bad)
-    bad = None
-    for h, m_, s_ in ((0, 0, 0), (0, 0, 59), (0, 59, 0), (1, 1, 1), (9, 30, 0), (12, 0, 0), (23, 59, 59), (25, 1, 1), (100, 0, 0)):
-        for txt, want in (("%d:%02d:%02d" % (h, m_, s_), h * 3600 + m_ * 60 + s_), ("%d:%02d" % (h, m_), h * 3600 + m_ * 60), ("%d" % h, h * 3600)):
-            back = call_fn(t2s, txt)
-            if back != want:
-                bad = bad or (txt, back, want)
-    chk.expect(bad is None, "R-C12-7", "_str_time_to_sec weighs hours by 3600 and minutes by 60 (HH:MM:SS, HH:MM, HH)", loc(t2s),
-               expected=bad[2] if bad else None, found=("%r reads as %s" % (bad[0], bad[1])) if bad else None)
-    # simple time controls: the token written for `AT TIME t` reads back as t for every whole second
-    from ._shared import forced
-    wcf, rcf = repo.func(IO, "InpFile._write_controls"), repo.func(IO, "_read_control_line")
-    chk.fn(wcf, rcf)
-    rows_ = concrete_time_control_round_trip(repo, (0, 1, 59, 60, 1199, 1200, 3599, 3600, 3661, 4800, 8400, 43200, 86399, 90061, 604860, 1000000))
-    chk.sample({"rule": "R-C12-8", "time_control_round_trip": [(t, tok, back) for t, tok, back in rows_[:8]]})
-    for t, tok, back in rows_:
-        chk.expect(back == t, "R-C12-8", "a simple control AT TIME %d s is written as a token that reads back as %d s" % (t, t), loc(wcf),
-                   "InpFile._write_controls run on a mock time control, the written line parsed by _read_control_line (concrete evaluation of both)",
-                   expected=t, found="%r reads back as %s" % (tok, back))
-    # rule clock times: _sec_to_clock (writer side of SYSTEM CLOCKTIME clauses) composed with _parse_value (reader side)
-    CTRL_ = "wntr/network/controls.py"
-    s2cf, pvf = repo.func(CTRL_, "ControlCondition._sec_to_clock"), repo.func(CTRL_, "ControlCondition._parse_value")
-    chk.fn(s2cf, pvf)
-    rows_ = concrete_rule_clock_round_trip(repo, [h * 3600 + m_ * 60 + s_ for h in range(24) for m_, s_ in ((0, 0), (30, 0), (59, 59))])
-    for hour in range(24):
-        hb = [(t, txt, back) for t, txt, back in rows_ if t // 3600 == hour and back != t]
-        chk.expect(not hb, "R-C12-8", "a rule's SYSTEM CLOCKTIME threshold in hour %02d reads back as the same instant" % hour, loc(pvf),
-                   "concrete evaluation of ControlCondition._sec_to_clock composed with ControlCondition._parse_value",
-                   expected=hb[0][0] if hb else None, found=("%r reads back as %s" % (hb[0][1], hb[0][2])) if hb else None)
-    chk.floor("R-C12-8", 16 + 24)
+        def call_fn(fn, *vals):
+            try:
+                return SEv({a.arg: v for a, v in zip(fn.args.args, vals)}, None, shook).run(fn.body)
+            except Raised:
+                return "raises"
+            except Unknown as ex_:
+                raise ExtractError("%s not evaluable: %s" % (fn.name, ex_))
+        bad = None
+        for sec in (0, 59, 60, 3599, 3600, 3661, 43200, 86399, 90061, 360000):
+            r = call_fn(s2s, sec)
+            if not (isinstance(r, (list, tuple)) and len(r) == 3 and all(isinstance(x, int) for x in r) and r[0] * 3600 + r[1] * 60 + r[2] == sec and 0 <= r[1] < 60 and 0 <= r[2] < 60):
+                bad = bad or (sec, r)
+        chk.expect(bad is None, "R-C12-7", "_sec_to_string(sec) = (h, m, s) with h*3600 + m*60 + s = sec and 0 <= m, s < 60", loc(s2s), found=bad)
+        bad = None
+        for h, m_, s_ in ((0, 0, 0), (0, 0, 59), (0, 59, 0), (1, 1, 1), (9, 30, 0), (12, 0, 0), (23, 59, 59), (25, 1, 1), (100, 0, 0)):
+            for txt, want in (("%d:%02d:%02d" % (h, m_, s_), h * 3600 + m_ * 60 + s_), ("%d:%02d" % (h, m_), h * 3600 + m_ * 60), ("%d" % h, h * 3600)):
+                back = call_fn(t2s, txt)
+                if back != want:
+                    bad = bad or (txt, back, want)
+        chk.expect(bad is None, "R-C12-7", "_str_time_to_sec weighs hours by 3600 and minutes by 60 (HH:MM:SS, HH:MM, HH)", loc(t2s),
+                   expected=bad[2] if bad else None, found=("%r reads as %s" % (bad[0], bad[1])) if bad else None)
+        # simple time controls: the token written for `AT TIME t` reads back as t for every whole second
+        from ._shared import forced
+        wcf, rcf = repo.func(IO, "InpFile._write_controls"), repo.func(IO, "_read_control_line")
+        chk.fn(wcf, rcf)
+        rows_ = concrete_time_control_round_trip(repo, (0, 1, 59, 60, 1199, 1200, 3599, 3600, 3661, 4800, 8400, 43200, 86399, 90061, 604860, 1000000))
+        chk.sample({"rule": "R-C12-8", "time_control_round_trip": [(t, tok, back) for t, tok, back in rows_[:8]]})
+        for t, tok, back in rows_:
+            chk.expect(back == t, "R-C12-8", "a simple control AT TIME %d s is written as a token that reads back as %d s" % (t, t), loc(wcf),
+                       "InpFile._write_controls run on a mock time control, the written line parsed by _read_control_line (concrete evaluation of both)",
+                       expected=t, found="%r reads back as %s" % (tok, back))
+        # rule clock times: _sec_to_clock (writer side of SYSTEM CLOCKTIME clauses) composed with _parse_value (reader side)
+        CTRL_ = "wntr/network/controls.py"
+        s2cf, pvf = repo.func(CTRL_, "ControlCondition._sec_to_clock"), repo.func(CTRL_, "ControlCondition._parse_value")
+        chk.fn(s2cf, pvf)
+        rows_ = concrete_rule_clock_round_trip(repo, [h * 3600 + m_ * 60 + s_ for h in range(24) for m_, s_ in ((0, 0), (30, 0), (59, 59))])
+        for hour in range(24):
+            hb = [(t, txt, back) for t, txt, back in rows_ if t // 3600 == hour and back != t]
+            chk.expect(not hb, "R-C12-8", "a rule's SYSTEM CLOCKTIME threshold in hour %02d reads back as the same instant" % hour, loc(pvf),
+                       "concrete evaluation of ControlCondition._sec_to_clock composed with ControlCondition._parse_value",
+                       expected=hb[0][0] if hb else None, found=("%r reads back as %s" % (hb[0][1], hb[0][2])) if hb else None)
+        chk.floor("R-C12-8", 16 + 24)
     # ---------------------------------------------------------------- R-C12-9 the writer converts with the units it announces
-    wfn = repo.func(IO, "InpFile.write")
-    wopt = repo.func(IO, "InpFile._write_options")
-    chk.fn(wfn, wopt)
-    def argtexts(args):
-        return [x.text if isinstance(x, Opaque) else str(x) for x in args]
-    if not any(l == "QUALITY" and any(t.endswith("quality.inpfile_units") for t in argtexts(a_)) for l, a_ in ol22):
-        raise ExtractError("_write_options: QUALITY line with the mass units not found")
-    # abstract execution of write(): which values are stored to self.mass_units / self.flow_units on which paths (temporaries are followed)
-    wex = CompExec(call_hook=make_hook(), inline=inline_table(repo, wfn))
-    mu_stores, fu_stores = [], []
-    for o in wex.run(wfn):
-        for e in o.events:
-            if e[0] == "store" and e[1] in ("self.mass_units", "self.flow_units"):
-                txt = wex.text(e[2])
-                # ... an assignment that only happens when self.mass_units is still unset does not count (a reader that ran before must not win over the option)
-                cd = dict(o.conds)
-                unset = forced("self.mass_units is None", cd) is True or forced("self.mass_units is not None", cd) is False or forced("self.mass_units", cd) is False
-                (mu_stores if e[1] == "self.mass_units" else fu_stores).append((txt, unset))
-    from_opt = [u for t, u in mu_stores if "options.quality.inpfile_units" in t]
-    chk.expect(bool(from_opt) and not all(from_opt), "R-C12-9",
-               "the mass unit the writer converts concentrations with is taken from options.quality.inpfile_units, which the QUALITY line announces", loc(wfn),
-               "the [OPTIONS] QUALITY line prints options.quality.inpfile_units while the conversions use self.mass_units: if the two have different sources a ug/L model is "
-               "written with mg/L numbers and read back 1000 times too small", expected="self.mass_units = f(wn.options.quality.inpfile_units)", found=sorted({t for t, u in mu_stores}))
-    chk.expect(any("options.hydraulic.inpfile_units" in t or re.search(r"\bunits\b", t.replace("inpfile_units", "")) for t, u in fu_stores), "R-C12-9",
-               "the flow unit system the writer converts with comes from the `units` argument / options.hydraulic.inpfile_units", loc(wfn), found=sorted({t for t, u in fu_stores}))
-    uo = [argtexts(a_) for l, a_ in ol22 if l == "UNITS"]
-    chk.expect(bool(uo) and all(any(t.startswith("self.flow_units") for t in a_) for a_ in uo), "R-C12-9", "the UNITS line announces the flow unit system the writer converts with", loc(wopt), found=uo[:2])
+    with chk.part("R-C12-9 the writer converts with the units it announces"):
+        wfn = repo.func(IO, "InpFile.write")
+        wopt = repo.func(IO, "InpFile._write_options")
+        chk.fn(wfn, wopt)
+        def argtexts(args):
+            return [x.text if isinstance(x, Opaque) else str(x) for x in args]
+        if not any(l == "QUALITY" and any(t.endswith("quality.inpfile_units") for t in argtexts(a_)) for l, a_ in ol22):
+            raise ExtractError("_write_options: QUALITY line with the mass units not found")
+        # abstract execution of write(): which values are stored to self.mass_units / self.flow_units on which paths (temporaries are followed)
+        wex = CompExec(call_hook=make_hook(), inline=inline_table(repo, wfn))
+        mu_stores, fu_stores = [], []
+        for o in wex.run(wfn):
+            for e in o.events:
+                if e[0] == "store" and e[1] in ("self.mass_units", "self.flow_units"):
+                    txt = wex.text(e[2])
+                    # ... an assignment that only happens when self.mass_units is still unset does not count (a reader that ran before must not win over the option)
+                    cd = dict(o.conds)
+                    unset = forced("self.mass_units is None", cd) is True or forced("self.mass_units is not None", cd) is False or forced("self.mass_units", cd) is False
+                    (mu_stores if e[1] == "self.mass_units" else fu_stores).append((txt, unset))
+        from_opt = [u for t, u in mu_stores if "options.quality.inpfile_units" in t]
+        chk.expect(bool(from_opt) and not all(from_opt), "R-C12-9",
+                   "the mass unit the writer converts concentrations with is taken from options.quality.inpfile_units, which the QUALITY line announces", loc(wfn),
+                   "the [OPTIONS] QUALITY line prints options.quality.inpfile_units while the conversions use self.mass_units: if the two have different sources a ug/L model is "
+                   "written with mg/L numbers and read back 1000 times too small", expected="self.mass_units = f(wn.options.quality.inpfile_units)", found=sorted({t for t, u in mu_stores}))
+        chk.expect(any("options.hydraulic.inpfile_units" in t or re.search(r"\bunits\b", t.replace("inpfile_units", "")) for t, u in fu_stores), "R-C12-9",
+                   "the flow unit system the writer converts with comes from the `units` argument / options.hydraulic.inpfile_units", loc(wfn), found=sorted({t for t, u in fu_stores}))
+        uo = [argtexts(a_) for l, a_ in ol22 if l == "UNITS"]
+        chk.expect(bool(uo) and all(any(t.startswith("self.flow_units") for t in a_) for a_ in uo), "R-C12-9", "the UNITS line announces the flow unit system the writer converts with", loc(wopt), found=uo[:2])
 
     # ---------------------------------------------------------------- R-C12-10 every demand entry's category is written
-    wdm = repo.func(IO, "InpFile._write_demands")
-    chk.fn(wdm)
-    # the writer is RUN (sa/concrete.py: tree-walking evaluator over the parsed source, nothing is imported) on a mock model with one
-    # junction; what counts is which lines reach the file, not how the guard is written
-    for ndem, cat in ((1, None), (1, "fire"), (2, None), (2, "fire")):
-        lines = concrete_demand_lines(repo, ndem, cat)
-        must = ndem > 1 or cat is not None
-        ok_ = (not must) or (len(lines) == ndem and (cat is None or cat in lines[0]))
-        chk.expect(ok_, "R-C12-10", "a junction with %d demand(s), first category %r, gets its [DEMANDS] lines" % (ndem, cat), loc(wdm),
-                   "the [JUNCTIONS] line has no place for a demand category: a junction whose only demand has a category must be written to [DEMANDS] or the category is lost",
-                   expected="%d line(s)%s" % (ndem, ", the first with category %s" % cat if cat else ""), found=lines)
+    with chk.part("R-C12-10 every demand entry's category is written"):
+        wdm = repo.func(IO, "InpFile._write_demands")
+        chk.fn(wdm)
+        # the writer is RUN (sa/concrete.py: tree-walking evaluator over the parsed source, nothing is imported) on a mock model with one
+        # junction; what counts is which lines reach the file, not how the guard is written
+        for ndem, cat in ((1, None), (1, "fire"), (2, None), (2, "fire")):
+            lines = concrete_demand_lines(repo, ndem, cat)
+            must = ndem > 1 or cat is not None
+            ok_ = (not must) or (len(lines) == ndem and (cat is None or cat in lines[0]))
+            chk.expect(ok_, "R-C12-10", "a junction with %d demand(s), first category %r, gets its [DEMANDS] lines" % (ndem, cat), loc(wdm),
+                       "the [JUNCTIONS] line has no place for a demand category: a junction whose only demand has a category must be written to [DEMANDS] or the category is lost",
+                       expected="%d line(s)%s" % (ndem, ", the first with category %s" % cat if cat else ""), found=lines)
 
     # ---------------------------------------------------------------- R-C12-11 rule conditions: grouping of AND / OR
-    # PRESENCE / TEXT MATCH ONLY: a Raise node somewhere in the function, the substrings AndCondition and OrCondition in its unparsed source and an
-    # isinstance call on an expression containing `_condition_`.  The grouping itself is never analysed (`rec` below is computed and not used), so the
-    # message of the instance says more than the rule decides.
-    acc = repo.func(IO, "_EpanetRule.add_control_condition")
-    chk.fn(acc)
-    rec = [n for n in walk(acc) if isinstance(n, ast.If) and "OrCondition" in unparse(n.test) or (isinstance(n, ast.If) and "AndCondition" in unparse(n.test))]
-    handles_mixed = any(isinstance(n, (ast.Raise,)) for n in walk(acc)) and "AndCondition" in unparse(acc) and "OrCondition" in unparse(acc) and \
-        any(isinstance(n, ast.Call) and unparse(n.func) == "isinstance" and "_condition_" in unparse(n.args[0]) for n in walk(acc))
-    chk.expect(handles_mixed, "R-C12-11", "the rule writer keeps the grouping of nested AND / OR conditions (or refuses what the flat rule grammar cannot express)", loc(acc),
-               "add_control_condition flattens the condition tree into IF/AND/OR clauses in visiting order; the reader groups them as an AND of OR-groups, so "
-               "`a or (b and c)` and `(a and b) or c` come back as different conditions", expected="normalisation to an AND of OR-groups, or a refusal", found="children are emitted in order without looking at their type")
+    with chk.part("R-C12-11 rule conditions: grouping of AND / OR"):
+        # PRESENCE / TEXT MATCH ONLY: a Raise node somewhere in the function, the substrings AndCondition and OrCondition in its unparsed source and an
+        # isinstance call on an expression containing `_condition_`.  The grouping itself is never analysed (`rec` below is computed and not used), so the
+        # message of the instance says more than the rule decides.
+        acc = repo.func(IO, "_EpanetRule.add_control_condition")
+        chk.fn(acc)
+        rec = [n for n in walk(acc) if isinstance(n, ast.If) and "OrCondition" in unparse(n.test) or (isinstance(n, ast.If) and "AndCondition" in unparse(n.test))]
+        handles_mixed = any(isinstance(n, (ast.Raise,)) for n in walk(acc)) and "AndCondition" in unparse(acc) and "OrCondition" in unparse(acc) and \
+            any(isinstance(n, ast.Call) and unparse(n.func) == "isinstance" and "_condition_" in unparse(n.args[0]) for n in walk(acc))
+        chk.expect(handles_mixed, "R-C12-11", "the rule writer keeps the grouping of nested AND / OR conditions (or refuses what the flat rule grammar cannot express)", loc(acc),
+                   "add_control_condition flattens the condition tree into IF/AND/OR clauses in visiting order; the reader groups them as an AND of OR-groups, so "
+                   "`a or (b and c)` and `(a and b) or c` come back as different conditions", expected="normalisation to an AND of OR-groups, or a refusal", found="children are emitted in order without looking at their type")
 
-    # [TIMES]: the writer and the reader are RUN (concrete evaluator, mock options) -- every option, and START CLOCKTIME for instants in
-    # every hour of the day, must come back as written; how either side computes or formats the text does not matter
-    wtf, rdf = repo.func(IO, "InpFile._write_times"), repo.func(IO, "InpFile._read_times")
-    chk.fn(wtf, rdf, repo.func(IO, "_clock_time_to_sec"))
-    world = concrete_world(repo)
-    diffs = {}
-    for hour in range(24):
-        hb = None
-        for m_, s_ in ((0, 0), (30, 0), (59, 59)):
-            vals = dict(TIME_OPTIONS, start_clocktime=hour * 3600 + m_ * 60 + s_)
-            text, back = concrete_times_round_trip(repo, world, vals)
-            line = [l.strip() for l in text.splitlines() if "CLOCKTIME" in l.upper()]
-            got = back.get("start_clocktime") if isinstance(back, dict) else back
-            if got != vals["start_clocktime"]:
-                hb = hb or (vals["start_clocktime"], line[0] if line else "(no START CLOCKTIME line)", got)
-            if isinstance(back, dict):
-                for k, v in vals.items():
-                    if k != "start_clocktime" and back.get(k) != v:
-                        diffs.setdefault(k, (v, back.get(k)))
-        chk.expect(hb is None, "R-C12-7", "START CLOCKTIME written for an instant in hour %02d reads back as the same instant" % hour, loc(wtf),
-                   "InpFile._write_times run on mock time options, its text read by InpFile._read_times (concrete evaluation of both)",
-                   expected="%d s" % hb[0] if hb else None, found=("%r reads back as %s" % (hb[1], hb[2])) if hb else None)
-    chk.expect(not diffs, "R-C12-7", "[TIMES] duration, time steps, pattern / report start and statistic read back as written", loc(wtf),
-               expected={k: v[0] for k, v in diffs.items()}, found={k: v[1] for k, v in diffs.items()})
+        # [TIMES]: the writer and the reader are RUN (concrete evaluator, mock options) -- every option, and START CLOCKTIME for instants in
+        # every hour of the day, must come back as written; how either side computes or formats the text does not matter
+        wtf, rdf = repo.func(IO, "InpFile._write_times"), repo.func(IO, "InpFile._read_times")
+        chk.fn(wtf, rdf, repo.func(IO, "_clock_time_to_sec"))
+        world = concrete_world(repo)
+        diffs = {}
+        for hour in range(24):
+            hb = None
+            for m_, s_ in ((0, 0), (30, 0), (59, 59)):
+                vals = dict(TIME_OPTIONS, start_clocktime=hour * 3600 + m_ * 60 + s_)
+                text, back = concrete_times_round_trip(repo, world, vals)
+                line = [l.strip() for l in text.splitlines() if "CLOCKTIME" in l.upper()]
+                got = back.get("start_clocktime") if isinstance(back, dict) else back
+                if got != vals["start_clocktime"]:
+                    hb = hb or (vals["start_clocktime"], line[0] if line else "(no START CLOCKTIME line)", got)
+                if isinstance(back, dict):
+                    for k, v in vals.items():
+                        if k != "start_clocktime" and back.get(k) != v:
+                            diffs.setdefault(k, (v, back.get(k)))
+            chk.expect(hb is None, "R-C12-7", "START CLOCKTIME written for an instant in hour %02d reads back as the same instant" % hour, loc(wtf),
+                       "InpFile._write_times run on mock time options, its text read by InpFile._read_times (concrete evaluation of both)",
+                       expected="%d s" % hb[0] if hb else None, found=("%r reads back as %s" % (hb[1], hb[2])) if hb else None)
+        chk.expect(not diffs, "R-C12-7", "[TIMES] duration, time steps, pattern / report start and statistic read back as written", loc(wtf),
+                   expected={k: v[0] for k, v in diffs.items()}, found={k: v[1] for k, v in diffs.items()})
 
     # ---------------------------------------------------------------- R-C12-14 [TIMES] values with a units word (EPANET: SECONDS(SEC), MINUTES(MIN), HOURS, DAYS; hours when omitted)
-    # _read_times is RUN on one line per option and spelling; files written by EPANET / other tools use these forms, and a model read from
-    # them must be the model they describe before it can be written back
-    TIME_FORMS = (("30 MIN", 1800), ("90 SEC", 90), ("2 HOURS", 7200), ("1 DAY", 86400), ("1.5", 5400), ("1:30", 5400), ("45 MINUTES", 2700), ("120 SECONDS", 120))
-    for label, attr in (("DURATION", "duration"), ("HYDRAULIC TIMESTEP", "hydraulic_timestep"), ("QUALITY TIMESTEP", "quality_timestep"), ("PATTERN TIMESTEP", "pattern_timestep"),
-                        ("PATTERN START", "pattern_start"), ("REPORT TIMESTEP", "report_timestep"), ("REPORT START", "report_start"), ("RULE TIMESTEP", "rule_timestep")):
-        wrong = []
-        for txt, want in TIME_FORMS:
-            got = concrete_read_times(world, ["%s %s" % (label, txt)])
-            got = got.get(attr, "(option not set)") if isinstance(got, dict) else got
-            if got != want:
-                wrong.append(("%s %s" % (label, txt), want, got))
-        chk.expect(not wrong, "R-C12-14", "[TIMES] %s is read in the units the line names (seconds, minutes, hours, days; hours by default; H:MM)" % label, loc(rdf),
-                   "InpFile._read_times run (concrete evaluation) on `<option> 30 MIN`, `90 SEC`, `2 HOURS`, `1 DAY`, `1.5`, `1:30`, ...",
-                   expected=[(l, w_) for l, w_, g in wrong[:3]], found=[(l, g) for l, w_, g in wrong[:3]])
-    chk.floor("R-C12-14", 8)
+    with chk.part("R-C12-14 [TIMES] values with a units word (EPANET: SECONDS(SEC), MINUTES(MIN), HOURS, DAYS"):
+        # _read_times is RUN on one line per option and spelling; files written by EPANET / other tools use these forms, and a model read from
+        # them must be the model they describe before it can be written back
+        TIME_FORMS = (("30 MIN", 1800), ("90 SEC", 90), ("2 HOURS", 7200), ("1 DAY", 86400), ("1.5", 5400), ("1:30", 5400), ("45 MINUTES", 2700), ("120 SECONDS", 120))
+        for label, attr in (("DURATION", "duration"), ("HYDRAULIC TIMESTEP", "hydraulic_timestep"), ("QUALITY TIMESTEP", "quality_timestep"), ("PATTERN TIMESTEP", "pattern_timestep"),
+                            ("PATTERN START", "pattern_start"), ("REPORT TIMESTEP", "report_timestep"), ("REPORT START", "report_start"), ("RULE TIMESTEP", "rule_timestep")):
+            wrong = []
+            for txt, want in TIME_FORMS:
+                got = concrete_read_times(world, ["%s %s" % (label, txt)])
+                got = got.get(attr, "(option not set)") if isinstance(got, dict) else got
+                if got != want:
+                    wrong.append(("%s %s" % (label, txt), want, got))
+            chk.expect(not wrong, "R-C12-14", "[TIMES] %s is read in the units the line names (seconds, minutes, hours, days; hours by default; H:MM)" % label, loc(rdf),
+                       "InpFile._read_times run (concrete evaluation) on `<option> 30 MIN`, `90 SEC`, `2 HOURS`, `1 DAY`, `1.5`, `1:30`, ...",
+                       expected=[(l, w_) for l, w_, g in wrong[:3]], found=[(l, g) for l, w_, g in wrong[:3]])
+        chk.floor("R-C12-14", 8)
 
     # ---------------------------------------------------------------- R-C12-15 rule clause times in every spelling the INP grammar has
-    # `IF SYSTEM CLOCKTIME >= 8 AM` (the EPANET manual's own example), `8:00 AM`, `14:00`, decimal hours: the condition's constructor is RUN
-    CLOCK_FORMS = (("8 AM", 28800), ("6 PM", 64800), ("12 AM", 0), ("12 PM", 43200), ("8:00 AM", 28800), ("8:30 PM", 73800), ("14:00", 50400), ("6", 21600), ("6.5", 23400),
-                   ("8 am", 28800), ("11:59:59 PM", 86399))
-    for clsname in ("TimeOfDayCondition", "SimTimeCondition"):
-        cf = repo.func("wntr/network/controls.py", clsname + ".__init__")
-        chk.fn(cf)
-        wrong = []
-        for txt, want in CLOCK_FORMS:
-            got = concrete_condition_threshold(world, clsname, txt)
-            if isinstance(got, str) or got != want:
-                wrong.append((txt, want, got))
-        chk.expect(not wrong, "R-C12-15", "%s accepts a rule clause time as `H AM/PM`, `H:MM[:SS] [AM/PM]` or decimal hours and holds it in seconds" % clsname, loc(cf),
-                   "the constructor is run (concrete evaluation) on '8 AM', '6 PM', '12 AM', '12 PM', '8:00 AM', '8:30 PM', '14:00', '6', '6.5'",
-                   expected=[(t, w_) for t, w_, g in wrong[:3]], found=[(t, g) for t, w_, g in wrong[:3]])
+    with chk.part("R-C12-15 rule clause times in every spelling the INP grammar has"):
+        # `IF SYSTEM CLOCKTIME >= 8 AM` (the EPANET manual's own example), `8:00 AM`, `14:00`, decimal hours: the condition's constructor is RUN
+        CLOCK_FORMS = (("8 AM", 28800), ("6 PM", 64800), ("12 AM", 0), ("12 PM", 43200), ("8:00 AM", 28800), ("8:30 PM", 73800), ("14:00", 50400), ("6", 21600), ("6.5", 23400),
+                       ("8 am", 28800), ("11:59:59 PM", 86399))
+        for clsname in ("TimeOfDayCondition", "SimTimeCondition"):
+            cf = repo.func("wntr/network/controls.py", clsname + ".__init__")
+            chk.fn(cf)
+            wrong = []
+            for txt, want in CLOCK_FORMS:
+                got = concrete_condition_threshold(world, clsname, txt)
+                if isinstance(got, str) or got != want:
+                    wrong.append((txt, want, got))
+            chk.expect(not wrong, "R-C12-15", "%s accepts a rule clause time as `H AM/PM`, `H:MM[:SS] [AM/PM]` or decimal hours and holds it in seconds" % clsname, loc(cf),
+                       "the constructor is run (concrete evaluation) on '8 AM', '6 PM', '12 AM', '12 PM', '8:00 AM', '8:30 PM', '14:00', '6', '6.5'",
+                       expected=[(t, w_) for t, w_, g in wrong[:3]], found=[(t, g) for t, w_, g in wrong[:3]])
 
     # ---------------------------------------------------------------- R-C12-18 a reader object can be used again: what one read accumulates is reset by the next
-    reader_state_reset(repo, chk)
+    with chk.part("R-C12-18 a reader object can be used again: what one read accumulates is reset by the next"):
+        reader_state_reset(repo, chk)
 
     # ---------------------------------------------------------------- R-C12-16 the time steps the simulator settles on (clause of C03 decided with this module's
-    # time-option machinery): as EPANET, the hydraulic step is shortened to the pattern step and to the report step, so that no pattern period is skipped
-    sso = repo.func("wntr/sim/core.py", "WNTRSimulator._setup_sim_options")
-    chk.fn(sso)
-    for hyd, pat, rep in ((3600, 1800, 3600), (3600, 3600, 3600), (1800, 3600, 3600), (3600, 900, 1800), (3600, 1800, "ALL"), (900, 3600, 3600)):
-        want = min([hyd, pat] + ([rep] if not isinstance(rep, str) else []))
-        got, rep_got = concrete_sim_steps(world, hyd, pat, rep)
-        chk.expect(got == want, "R-C12-16", "hydraulic %s s, pattern %s s, report %s: the simulator's hydraulic step is the shortest of them" % (hyd, pat, rep), loc(sso),
-                   "WNTRSimulator._setup_sim_options run (concrete evaluation) on mock time options; EPANET never lets a hydraulic step skip a pattern period",
-                   expected=want, found=got)
+    with chk.part("R-C12-16 the time steps the simulator settles on (clause of C03 decided with this module's"):
+        # time-option machinery): as EPANET, the hydraulic step is shortened to the pattern step and to the report step, so that no pattern period is skipped
+        sso = repo.func("wntr/sim/core.py", "WNTRSimulator._setup_sim_options")
+        chk.fn(sso)
+        for hyd, pat, rep in ((3600, 1800, 3600), (3600, 3600, 3600), (1800, 3600, 3600), (3600, 900, 1800), (3600, 1800, "ALL"), (900, 3600, 3600)):
+            want = min([hyd, pat] + ([rep] if not isinstance(rep, str) else []))
+            got, rep_got = concrete_sim_steps(world, hyd, pat, rep)
+            chk.expect(got == want, "R-C12-16", "hydraulic %s s, pattern %s s, report %s: the simulator's hydraulic step is the shortest of them" % (hyd, pat, rep), loc(sso),
+                       "WNTRSimulator._setup_sim_options run (concrete evaluation) on mock time options; EPANET never lets a hydraulic step skip a pattern period",
+                       expected=want, found=got)
 
 
 WITNESSES = [
